@@ -1576,6 +1576,42 @@ class FunctionNormalizer(object):
 
     # -- flag + break  ->  for/else --------------------------------------------------------------------------
     def pass_flags(self):
+        # for ..: (x = K; break)*  else: x = not K     ->     x = not K; for ..: (x = K; break)*      (flag form; handled below)
+        for owner, fld, lst in list(walk_lists(self.fn)):
+            for i, loop in enumerate(lst):
+                if not (isinstance(loop, (ast.For, ast.While)) and len(loop.orelse) == 1):
+                    continue
+                e = loop.orelse[0]
+                if not (isinstance(e, ast.Assign) and len(e.targets) == 1 and isinstance(e.targets[0], ast.Name) and
+                        isinstance(e.value, ast.Constant) and isinstance(e.value.value, bool) and self._is_local(e.targets[0].id)):
+                    continue
+                name, final = e.targets[0].id, e.value.value
+                brks = _breaks_of(loop)
+                if not brks:
+                    continue
+                good = 0
+                for o2, f2, l2 in walk_lists(loop):
+                    if o2 is loop and f2 == 'orelse':
+                        continue
+                    for k, s2 in enumerate(l2):
+                        if isinstance(s2, ast.Break) and any(s2 is b for b in brks):
+                            prev = l2[k - 1] if k > 0 else None
+                            if isinstance(prev, ast.Assign) and len(prev.targets) == 1 and isinstance(prev.targets[0], ast.Name) and \
+                                    prev.targets[0].id == name and isinstance(prev.value, ast.Constant) and prev.value.value is (not final):
+                                good += 1
+                if good != len(brks):
+                    continue
+                # the name must not be read or written elsewhere inside the loop, nor live before it
+                inner = [n for n in ast.walk(loop) if isinstance(n, ast.Name) and n.id == name]
+                if len(inner) != len(brks) + 1:
+                    continue
+                before = [n for s2 in lst[:i] for n in ast.walk(s2) if isinstance(n, ast.Name) and n.id == name]
+                if before or self._in_loop(loop) and any(isinstance(n, ast.Name) and n.id == name and isinstance(n.ctx, ast.Load)
+                                                         for s2 in lst[:i] for n in ast.walk(s2)):
+                    continue
+                loop.orelse = []
+                lst.insert(i, at(ast.Assign(targets=[ast.Name(id=name, ctx=ast.Store())], value=ast.Constant(value=final)), loop))
+                return
         for owner, fld, lst in list(walk_lists(self.fn)):
             if owner is self.fn:
                 lkind = 'function'
@@ -1697,6 +1733,11 @@ class FunctionNormalizer(object):
         for n in ast.walk(fn):
             if isinstance(n, ast.Name) and isinstance(n.ctx, (ast.Store, ast.Del)):
                 stores[n.id] = stores.get(n.id, 0) + 1
+        shadowed = set()      # names that are also parameters of a nested def / lambda: their occurrences are counted per scope
+        for n in ast.walk(fn):
+            if n is not fn and isinstance(n, (ast.FunctionDef, ast.AsyncFunctionDef, ast.Lambda)):
+                a = n.args
+                shadowed |= {x.arg for x in a.posonlyargs + a.args + a.kwonlyargs}
         # linear order of statements
         order = {}
         parents = {}
@@ -1730,12 +1771,21 @@ class FunctionNormalizer(object):
                     continue
                 if isinstance(st.value, (ast.Yield, ast.YieldFrom, ast.Await)):
                     continue
-                uses = [n for n in ast.walk(fn) if isinstance(n, ast.Name) and n.id == name and isinstance(n.ctx, ast.Load)]
+                if name in shadowed:
+                    own = scoped_names(fn, name)
+                    if sum(1 for n in own if isinstance(n.ctx, (ast.Store, ast.Del))) != 1:
+                        continue
+                    uses = [n for n in own if isinstance(n.ctx, ast.Load)]
+                else:
+                    uses = [n for n in ast.walk(fn) if isinstance(n, ast.Name) and n.id == name and isinstance(n.ctx, ast.Load)]
                 if not uses:
                     continue
                 rest = lst[i + 1:]
                 # all uses must be in statements after st in the same list (dominated by the definition)
-                use_in_rest = [n for s in rest for n in ast.walk(s) if isinstance(n, ast.Name) and n.id == name and isinstance(n.ctx, ast.Load)]
+                if name in shadowed:
+                    use_in_rest = [n for s in rest for n in ([s] if isinstance(s, ast.Name) else []) + scoped_names(s, name) if isinstance(n.ctx, ast.Load)]
+                else:
+                    use_in_rest = [n for s in rest for n in ast.walk(s) if isinstance(n, ast.Name) and n.id == name and isinstance(n.ctx, ast.Load)]
                 if len(use_in_rest) != len(uses):
                     continue
                 value = st.value
@@ -2392,6 +2442,42 @@ def _has_free_loop_jump(stmts):
     return rec(stmts, 0)
 
 
+def scoped_names(root, name):
+    '''Name nodes `name` below root that refer to root's own variable: occurrences inside a nested def / lambda that has a
+    parameter (or, for a def, a local) of that name belong to the inner scope and are left out'''
+    out = []
+
+    def shadows(n):
+        a = n.args
+        ps = {x.arg for x in a.posonlyargs + a.args + a.kwonlyargs}
+        if a.vararg:
+            ps.add(a.vararg.arg)
+        if a.kwarg:
+            ps.add(a.kwarg.arg)
+        if name in ps:
+            return True
+        if isinstance(n, (ast.FunctionDef, ast.AsyncFunctionDef)):
+            declared = any(isinstance(x, (ast.Nonlocal, ast.Global)) and name in x.names for x in ast.walk(n))
+            if not declared and any(isinstance(x, ast.Name) and x.id == name and isinstance(x.ctx, (ast.Store, ast.Del)) for x in ast.walk(n)):
+                return True
+        return False
+
+    def rec(n):
+        for c in ast.iter_child_nodes(n):
+            if isinstance(c, (ast.FunctionDef, ast.AsyncFunctionDef, ast.Lambda)) and shadows(c):
+                # defaults and decorators are evaluated in the enclosing scope
+                for d in list(c.args.defaults) + [x for x in c.args.kw_defaults if x is not None] + list(getattr(c, 'decorator_list', [])):
+                    if isinstance(d, ast.Name) and d.id == name:
+                        out.append(d)
+                    rec(d)
+                continue
+            if isinstance(c, ast.Name) and c.id == name:
+                out.append(c)
+            rec(c)
+    rec(root)
+    return out
+
+
 def _state_roots(value):
     '''the names whose STATE the (pure) value reads through a call: the receiver of a state-reading method call
     (d.get(k, v) reads d; k and v are only passed along / hashed) and every name inside the arguments of a state-reading
@@ -2539,6 +2625,41 @@ def eliminate_returns(body, target, where):
                 if b is None or o is None:
                     return None
                 out.append(at(ast.If(test=s.test, body=b or [at(ast.Pass(), s)], orelse=o), s))
+                return out
+            if isinstance(s, (ast.For, ast.While)) and not s.orelse and not _breaks_of(s) and has_return([s]):
+                # a loop that is left by `return e`: the return becomes `target = e; break`, what follows the loop runs only when
+                # the loop ends normally, i.e. in its else clause
+                loop = clone(s)
+                ok = [True]
+
+                def in_loop(lst):
+                    res = []
+                    for x in lst:
+                        if isinstance(x, ast.Return):
+                            if target is not None:
+                                v = x.value if x.value is not None else ast.Constant(value=None)
+                                res.append(at(ast.Assign(targets=[ast.Name(id=target, ctx=ast.Store())], value=v), x))
+                            elif x.value is not None and not is_pure(x.value):
+                                res.append(at(ast.Expr(value=x.value), x))
+                            res.append(at(ast.Break(), x))
+                            return res
+                        if isinstance(x, ast.If):
+                            x.body = in_loop(x.body) or [at(ast.Pass(), x)]
+                            x.orelse = in_loop(x.orelse)
+                            res.append(x)
+                            continue
+                        if has_return([x]):
+                            ok[0] = False      # a return below a nested loop / try / with
+                        res.append(x)
+                    return res
+                loop.body = in_loop(loop.body)
+                if not ok[0]:
+                    return None
+                rest_t = T(stmts[i + 1:], fall)
+                if rest_t is None:
+                    return None
+                loop.orelse = rest_t
+                out.append(loop)
                 return out
             if has_return([s]):
                 return None
